@@ -1,9 +1,9 @@
 (* C18 -- tuples and anonymous components are desugared completely and
    faithfully.  Property theorems only: each is closed by [exact] of a lemma of
-   Proofs.Desugar{Proofs,Metas,Total,Refine,Alpha,AlphaInj}, followed by Print Assumptions.  All
+   Proofs.Desugar{Proofs,Metas,Total,Refine,Alpha,AlphaInj,FunIff}, followed by Print Assumptions.  All
    statements of DESIGN §4 C18 are theorems here; nothing is left open. *)
 From Coq Require Import ZArith NArith List Bool String.
-Require Import Model.Ast Model.Desugar Spec.ExpandSpec Spec.RenameSpec Proofs.DesugarProofs Proofs.DesugarMetas Proofs.DesugarTotal Proofs.DesugarRefine Proofs.DesugarAlpha Proofs.DesugarAlphaInj.
+Require Import Model.Ast Model.Desugar Spec.ExpandSpec Spec.RenameSpec Proofs.DesugarProofs Proofs.DesugarMetas Proofs.DesugarTotal Proofs.DesugarRefine Proofs.DesugarAlpha Proofs.DesugarAlphaInj Proofs.DesugarFunIff.
 Import ListNotations.
 Local Open Scope string_scope.
 
@@ -47,11 +47,43 @@ Theorem C18_functions_with_sugar_rejected : forall lib ts fs d,
 Proof. exact remove_syntactic_sugar_sugar_free. Qed.
 Print Assumptions C18_functions_with_sugar_rejected.
 
-(* a function is kept exactly when it is sugar free (no panic assumed) *)
+(* THE FUNCTION-SIDE DECISION, both directions.  [check_function body = DOk None] is
+   "the function is handed on, without a report".  Left to right is contained in the
+   theorem above.  Right to left is the statement that was missing (third audit: the
+   theorem of this name used to be the first implication only): a sugar-free function
+   is never dropped, never answered by a report, and the check cannot panic on it
+   whatever its metas are -- the report builder (whose `get_file_id` can panic) is only
+   reached once sugar was found. *)
 Theorem C18_function_kept_iff : forall body,
-  check_function body = DOk None -> sugar_free_stmt body.
-Proof. exact check_function_kept. Qed.
+  check_function body = DOk None <-> sugar_free_stmt body.
+Proof. exact check_function_kept_iff. Qed.
 Print Assumptions C18_function_kept_iff.
+
+(* ... for remove_syntactic_sugar as a whole: every sugar-free input function is among
+   the functions handed on (no over-rejection), for every library, template list and
+   function list on which the pass returns *)
+Theorem C18_sugar_free_functions_kept : forall lib ts fs d,
+  remove_syntactic_sugar lib ts fs = DOk d ->
+  forall n b, In (n, b) fs -> sugar_free_stmt b -> In (n, b) (d_functions d).
+Proof. exact remove_syntactic_sugar_keeps_sugar_free_functions. Qed.
+Print Assumptions C18_sugar_free_functions_kept.
+
+(* THE RECORDED PORT ORDER.  template_data.rs `fill_inputs_and_outputs` is a traversal
+   with two accumulators (mirror: [fill_io], folded over blocks, initialisation blocks,
+   both branches of a conditional and loop bodies).  What the desugarer looks up for a
+   template -- [env_of ts] -- is, for every program and every template name, the list
+   of declared input names and the list of declared output names in the order their
+   declarations are WRITTEN ([declared_signals], the specification's own reading of a
+   body: textual pre-order, a declaration of several symbols left to right).  This is
+   the "declaration order" of the property text; C18_desugar_is_expand uses it. *)
+Theorem C18_recorded_ports_are_declaration_order : forall ts id,
+  option_map (fun ti => (map fst (ti_inputs ti), map fst (ti_outputs ti))) (lookup_template id (env_of ts)) =
+  match find (fun t => String.eqb (fst t) id) ts with
+  | Some (_, body) => Some (declared_signals SInput body, declared_signals SOutput body)
+  | None => None
+  end.
+Proof. exact (fun ts id => eq_sym (sig_env ts id)). Qed.
+Print Assumptions C18_recorded_ports_are_declaration_order.
 
 (* pass 1 alone already removes every anonymous component (what pass 2's
    `unreachable!()` relies on) *)
